@@ -4,9 +4,11 @@ package props
 // (DESIGN.md section 3.1).
 
 import (
+	"encoding/json"
 	mxj "github.com/clbanning/mxj/v2"
 	"reflect"
 	"sort"
+	"strings"
 
 	"pgregory.net/rapid"
 )
@@ -581,4 +583,103 @@ func staleAfterChange(subject map[string]interface{}, what string, q func(mxj.Ma
 		return failf("stale-after-in-place-change", "%s on a Map that was changed in place since the previous call:\n got  %s\n a freshly built equal Map gives %s\n map %s", what, a, b, canon(fresh))
 	}
 	return nil
+}
+
+// dupTopKey returns a JSON text that decodes to the same Map as jb (the text of a JSON object) but spells one top-level
+// key twice: a decoy member first, the real one later. encoding/json - and therefore NewMapJson - keeps the LAST
+// occurrence, so every function of the decoded document must answer exactly as for jb; a shortcut that scans the text
+// itself (first occurrence, early exit) does not.
+func dupTopKey(jb []byte, m map[string]interface{}, prefer string) []byte {
+	if len(m) == 0 || len(jb) < 2 || jb[0] != '{' {
+		return jb
+	}
+	key, found := prefer, false
+	if _, ok := m[prefer]; ok {
+		found = true
+	} else {
+		for _, k := range sortedKeys(m) {
+			key, found = k, true
+			break
+		}
+	}
+	if !found {
+		return jb
+	}
+	kb, err := json.Marshal(key)
+	if err != nil {
+		return jb
+	}
+	out := append([]byte(`{`), kb...)
+	out = append(out, []byte(`:{"DECOY":["decoy",{"`+"k"+`":0}]},`)...)
+	return append(out, jb[1:]...)
+}
+
+// decoyOfLen returns a well-formed document of exactly n bytes (JSON object or XML element) that has nothing in common
+// with the documents the generators produce; nil if n is too small.  Used by reuseBuffer.
+func decoyOfLen(n int, xmlDoc bool) []byte {
+	if xmlDoc {
+		// <q>zzz</q>
+		if n < 8 {
+			return nil
+		}
+		return []byte("<q>" + strings.Repeat("z", n-7) + "</q>")
+	}
+	// {"zzz":0}
+	if n < 7 {
+		return nil
+	}
+	return []byte(`{"` + strings.Repeat("z", n-6) + `":0}`)
+}
+
+// reuseBuffer models a caller that keeps ONE buffer for the documents it hands to the byte-slice taking functions:
+// call(buf) is first made with a decoy document of the same length in the buffer, then the real document is copied
+// into the SAME backing array and the returned slice is what the check uses from then on.  A function that remembers
+// the caller's slice (instead of a copy) compares the buffer with itself on the second call.
+func reuseBuffer(doc []byte, xmlDoc bool, call func([]byte)) []byte {
+	decoy := decoyOfLen(len(doc), xmlDoc)
+	if decoy == nil {
+		return append([]byte(nil), doc...)
+	}
+	buf := make([]byte, len(doc))
+	copy(buf, decoy)
+	call(buf)
+	copy(buf, doc)
+	return buf
+}
+
+// wrapDeepPrefix puts the Map below 3 to 70 single-entry maps (now and then with a scalar sibling) and returns the steps
+// that lead through the wrappers (now and then `*`): with them in front, paths of 9, 17, 33 or 65 segments are as
+// ordinary as paths of 3.
+func wrapDeepPrefix(t *rapid.T, m map[string]interface{}) (map[string]interface{}, []Step) {
+	m, pre, _ := wrapDeepPrefix2(t, m)
+	return m, pre
+}
+
+// wrapDeepPrefix2 also returns the prefix spelled with the keys themselves (no `*`).
+func wrapDeepPrefix2(t *rapid.T, m map[string]interface{}) (map[string]interface{}, []Step, []Step) {
+	d := rapid.IntRange(3, 70).Draw(t, "wrapdepth")
+	pre := make([]Step, d)
+	plain := make([]Step, d)
+	for i := d - 1; i >= 0; i-- {
+		k := rapid.SampledFrom(shapeKeys).Draw(t, "wrapk")
+		outer := map[string]interface{}{k: m}
+		if rapid.IntRange(0, 4).Draw(t, "wrapsib") == 0 {
+			outer["sib"] = "s"
+		}
+		m = outer
+		plain[i] = Step{Name: k, Index: -1}
+		if rapid.IntRange(0, 11).Draw(t, "wrapwild") == 0 {
+			k = "*"
+		}
+		pre[i] = Step{Name: k, Index: -1}
+	}
+	return m, pre, plain
+}
+
+func wrapDeep(t *rapid.T, m map[string]interface{}, steps []Step) (map[string]interface{}, []Step) {
+	m, pre := wrapDeepPrefix(t, m)
+	if steps == nil {
+		return m, nil
+	}
+	return m, append(pre, steps...)
 }
